@@ -72,6 +72,7 @@ func init() {
 			if c == True {
 				return nil
 			}
+			fr.m.touch(c)
 			if c == False || fr.m.solver.CheckWith(c) != "sat" {
 				fr.m.abort("assumption infeasible")
 			}
@@ -425,6 +426,12 @@ func (m *Machine) eventStrings(model map[string]uint64, upto int) []string {
 func (m *Machine) recordViolation(id, kind, msg string, _ *Term) {
 	model := m.solver.Values(m.vars)
 	model, pinned := m.pinSums(model)
+	if !pinned {
+		// the counterexample exists only for checksum values that differ from the real
+		// ones: it needs a collision, which the properties exclude
+		m.collisionOnly++
+		return
+	}
 	v := violation{ID: id, Kind: kind, Msg: msg, Inputs: model, Known: m.knownTag, CRCPinned: pinned, Sched: append([]string(nil), m.schedTrace...)}
 	for _, d := range m.trace {
 		if d.forked {
@@ -446,6 +453,7 @@ func (m *Machine) checkAssert(id string, c *Term) {
 		m.events = append(m.events, event{Kind: "A", ID: id})
 		return
 	}
+	m.touch(c)
 	m.solver.Push()
 	r := "sat"
 	if c != False {
